@@ -598,6 +598,20 @@ func proveIndex(f *ssa.Function, seq, idx ssa.Value, at ssa.Instruction) (string
 			}
 		}
 	}
+	// out := make([]T, len(A)); for i := 0; i < len(A); i++ { out[i] = … } (classic counter)
+	if ms, ok := ssax.Resolve(seq).(*ssa.MakeSlice); ok {
+		if la := lenArg(ms.Len); la != nil {
+			if m, isInd := inductionMin(idx); isInd && m >= 0 {
+				for _, cd := range ssax.Conds(f) {
+					if cd.Op == token.LSS && ssax.Resolve(cd.X) == ssax.Resolve(idx) {
+						if lb := lenArg(cd.Y); lb != nil && lenOfSame(lb, la) && !ssax.ReachableAvoiding(f, at, []ssax.Edge{{From: cd.If.Block(), Succ: 0}}, nil) {
+							return "proved", "counter below the length the slice was made with"
+						}
+					}
+				}
+			}
+		}
+	}
 	// for i := range A { … B[i] … } after a dominating len(A) == len(B)
 	if strings.Contains(ip, "(phi((<cycle> + 1)|-1) + 1)") {
 		for _, cd := range ssax.Conds(f) {
